@@ -7,8 +7,15 @@
 
   * `ProblemSized n m P` — the problem oracles return vectors of the right size when called with
     vectors of the right size;
-  * `DirSized n dir`     — a *successful* `apply` of the direction provider leaves a `q` of size `n`
-    (a failing one may leave anything: `q` is then not used).
+  * `DirSized n dir d₀`  — a *successful* `apply` of the direction provider leaves a `q` of size `n`
+    (a failing one may leave anything: `q` is then not used), **in every provider state PANOC can
+    reach** from the initial state `d₀` (`DirReach`: `initialize`, then any sequence of `apply` /
+    `update` / `changed_γ` / `reset` / `initialize` with `n`-sized arguments).  The contract is not
+    demanded of unreachable states: the list model truncates (`zipWith`) where the C++ would assert
+    — e.g. the L-BFGS model resized to 2 and applied at `n = 3` returns a 2-vector —, so a contract
+    over *all* states is false for the shipped providers.  That the loop only ever calls the
+    provider with `n`-sized vectors, from reachable states, is part of `run_sized`
+    (`iterBody_sized`, `busyHeads_ok`).
 
   Under these, on a well-formed call (`x₀` of size `n`; `y`, `Σ`, `err_z` of size `m`): the current
   iterate at every loop head has all its vectors of the right size (`Sized`), and the returned
@@ -35,11 +42,41 @@ structure ProblemSized (n m : Nat) (P : Problem α) : Prop where
   prox_xhat : ∀ γ x g, x.length = n → g.length = n → (P.prox γ x g).2.1.length = n
   prox_p : ∀ γ x g, x.length = n → g.length = n → (P.prox γ x g).2.2.length = n
 
-/-- Size contract of the direction provider: a successful `apply` on well-sized arguments leaves a
-    `q` of size `n`. -/
-def DirSized (n : Nat) (dir : Direction D α) : Prop :=
-  ∀ d γ x xh p g q, x.length = n → xh.length = n → p.length = n → g.length = n →
-    (dir.apply d γ x xh p g q).2.1 = true → (dir.apply d γ x xh p g q).2.2.length = n
+/-- **Provider states PANOC can reach** from the initial state `d₀` on a problem of dimension `n`:
+    `initialize` (on `d₀`, or again on a reached state: an interrupted first iteration), then any
+    sequence of `apply`, `update`, `changed_γ`, `reset` — every vector argument of size `n` (the
+    previous content of `q` handed to `apply` is arbitrary: never-written storage). -/
+inductive DirReach (n : Nat) (dir : Direction D α) (d0 : D) : D → Prop
+  | init (γ : α) (x xh p g : Vec α) : x.length = n → xh.length = n → p.length = n → g.length = n →
+      DirReach n dir d0 (dir.init d0 γ x xh p g)
+  | reinit {d : D} (γ : α) (x xh p g : Vec α) : DirReach n dir d0 d → x.length = n →
+      xh.length = n → p.length = n → g.length = n → DirReach n dir d0 (dir.init d γ x xh p g)
+  | apply {d : D} (γ : α) (x xh p g q : Vec α) : DirReach n dir d0 d → x.length = n →
+      xh.length = n → p.length = n → g.length = n → DirReach n dir d0 (dir.apply d γ x xh p g q).1
+  | update {d : D} (γk γn : α) (xk xn pk pn gk gn : Vec α) : DirReach n dir d0 d →
+      xk.length = n → xn.length = n → pk.length = n → pn.length = n → gk.length = n →
+      gn.length = n → DirReach n dir d0 (dir.update d γk γn xk xn pk pn gk gn).1
+  | changedGamma {d : D} (γ old : α) : DirReach n dir d0 d →
+      DirReach n dir d0 (dir.changedGamma d γ old)
+  | reset {d : D} : DirReach n dir d0 d → DirReach n dir d0 (dir.reset d)
+
+/-- The provider state of a loop state with iteration counter `k`: still the initial one (only
+    possible while `k = 0`: `initialize` is the first call of iteration 0), or reached. -/
+def DirOK (n : Nat) (dir : Direction D α) (d0 : D) (k : Nat) (d : D) : Prop :=
+  (k = 0 ∧ d = d0) ∨ DirReach n dir d0 d
+
+/-- Size contract of the direction provider: in every reachable state a successful `apply` on
+    well-sized arguments leaves a `q` of size `n`. -/
+def DirSized (n : Nat) (dir : Direction D α) (d0 : D) : Prop :=
+  ∀ d, DirReach n dir d0 d → ∀ γ x xh p g q, x.length = n → xh.length = n → p.length = n →
+    g.length = n → (dir.apply d γ x xh p g q).2.1 = true → (dir.apply d γ x xh p g q).2.2.length = n
+
+/-- A provider that meets the contract in *every* state (the toy providers of the examples) meets
+    it in the reachable ones. -/
+theorem DirSized.of_all {n : Nat} {dir : Direction D α} (d0 : D)
+    (h : ∀ d γ x xh p g q, x.length = n → xh.length = n → p.length = n → g.length = n →
+      (dir.apply d γ x xh p g q).2.1 = true → (dir.apply d γ x xh p g q).2.2.length = n) :
+    DirSized n dir d0 := fun d _ => h d
 
 /-- `x` and `∇ψ(x)` of an iterate have size `n`. -/
 def XG (n : Nat) (i : Iterate α) : Prop := i.x.length = n ∧ i.gradPsi.length = n
@@ -214,18 +251,118 @@ where
 
 /-! ### Direction stage, update stage, one pass of the loop body -/
 
-theorem directionStage_q {n m : Nat} (dir : Direction D α) (hD : DirSized n dir) (s : St α D)
-    (h : Sized n m s.curr) :
-    (directionStage dir s).2.2.2.1 ≠ 0 → (directionStage dir s).2.2.1.length = n := by
+/-- the provider state `initialize` (at `k = 0`) leaves, or the current one -/
+theorem directionStage_dt_reach {n m : Nat} (dir : Direction D α) (d0 : D) (s : St α D)
+    (h : Sized n m s.curr) (hd : DirOK n dir d0 s.k s.d) :
+    DirReach n dir d0 (if s.k == 0 then
+      (dir.init s.d s.curr.gamma s.curr.x s.curr.xhat s.curr.p s.curr.gradPsi, s.tick + 1)
+      else (s.d, s.tick)).1 := by
+  split_ifs with hk
+  · rcases hd with ⟨_, h0⟩ | hr
+    · rw [h0]; exact DirReach.init _ _ _ _ _ h.x h.xhat h.p h.g
+    · exact DirReach.reinit _ _ _ _ _ hr h.x h.xhat h.p h.g
+  · rcases hd with ⟨h0, _⟩ | hr
+    · exact absurd (by simpa using h0) hk
+    · exact hr
+
+/-- The direction stage calls the provider on reachable states with `n`-sized vectors, and leaves a
+    reachable state. -/
+theorem directionStage_reach {n m : Nat} (dir : Direction D α) (d0 : D) (s : St α D)
+    (h : Sized n m s.curr) (hd : DirOK n dir d0 s.k s.d) :
+    DirReach n dir d0 (directionStage dir s).1 := by
+  have hdt := directionStage_dt_reach dir d0 s h hd
   unfold directionStage
   simp only []
-  split_ifs with h1 h2 h3 h4 h5 <;> simp only [] <;> intro hne
-  all_goals first
-    | exact absurd rfl hne
-    | (apply hD _ _ _ _ _ _ _ h.x h.xhat h.p h.g
-       by_contra hc
-       simp_all)
-    | simp_all
+  by_cases hk : (s.k == 0) = true
+  · simp only [hk, if_true] at hdt ⊢
+    split_ifs <;> first
+      | exact DirReach.reset (DirReach.apply _ _ _ _ _ _ hdt h.x h.xhat h.p h.g)
+      | exact DirReach.apply _ _ _ _ _ _ hdt h.x h.xhat h.p h.g
+      | exact hdt
+  · simp only [hk, Bool.false_eq_true, if_false] at hdt ⊢
+    split_ifs <;> first
+      | exact DirReach.reset (DirReach.apply _ _ _ _ _ _ hdt h.x h.xhat h.p h.g)
+      | exact DirReach.apply _ _ _ _ _ _ hdt h.x h.xhat h.p h.g
+      | exact hdt
+
+theorem directionStage_q {n m : Nat} (dir : Direction D α) (d0 : D) (hD : DirSized n dir d0)
+    (s : St α D) (h : Sized n m s.curr) (hd : DirOK n dir d0 s.k s.d) :
+    (directionStage dir s).2.2.2.1 ≠ 0 → (directionStage dir s).2.2.1.length = n := by
+  have hdt := directionStage_dt_reach dir d0 s h hd
+  unfold directionStage
+  simp only []
+  by_cases hk : (s.k == 0) = true
+  · simp only [hk, if_true] at hdt ⊢
+    split_ifs with h2 h3 h4 h5 <;> simp only [] <;> intro hne
+    all_goals first
+      | exact absurd rfl hne
+      | (apply hD _ hdt _ _ _ _ _ _ h.x h.xhat h.p h.g
+         by_contra hc
+         simp_all)
+      | simp_all
+  · simp only [hk, Bool.false_eq_true, if_false] at hdt ⊢
+    split_ifs with h2 h3 h4 h5 <;> simp only [] <;> intro hne
+    all_goals first
+      | exact absurd rfl hne
+      | (apply hD _ hdt _ _ _ _ _ _ h.x h.xhat h.p h.g
+         by_contra hc
+         simp_all)
+      | simp_all
+
+/-! ### the provider state through the line search and the update stage -/
+
+theorem lsRecompute_d (P : Problem α) (q : Vec α) (s : LS α D) : (lsRecompute P q s).d = s.d := by
+  unfold lsRecompute
+  split_ifs <;> rfl
+
+theorem lsUpdateInCandidate_reach {n m : Nat} (dir : Direction D α) (d0 : D) (s : LS α D)
+    (hc : Sized n m s.curr) (hn : Sized n m s.next) (hd : DirReach n dir d0 s.d) :
+    DirReach n dir d0 (lsUpdateInCandidate dir s).d := by
+  unfold lsUpdateInCandidate
+  split_ifs
+  · exact DirReach.update _ _ _ _ _ _ _ _ hd hc.x hn.x hc.p hn.p hc.g hn.g
+  · exact hd
+
+/-- One pass of the line-search body calls the provider (`reset`, `update` in the candidate) only
+    on reachable states with `n`-sized vectors. -/
+theorem lsPass_reach {n m : Nat} {P : Problem α} (hP : ProblemSized n m P) (dir : Direction D α)
+    (d0 : D) (pr : Params α) (q : Vec α) (tauInit : α) (hq : tauInit ≠ 0 → q.length = n) (s : LS α D)
+    (h : LSSized n m q tauInit s) (hd : DirReach n dir d0 s.d) :
+    DirReach n dir d0 (lsPass P dir pr q tauInit s).st.d := by
+  have h1 := lsRecompute_sized hP q tauInit hq s h
+  have hd1 : DirReach n dir d0 (lsRecompute P q s).d := by rw [lsRecompute_d]; exact hd
+  have hs2 : Sized n m (evalPsiHat P pr (evalProxGradStep P (lsRecompute P q s).next)) :=
+    sized_evalStep hP pr _ h1.2
+  have hu := lsUpdateInCandidate_reach dir d0
+    { lsRecompute P q s with
+      next := evalPsiHat P pr (evalProxGradStep P (lsRecompute P q s).next),
+      tick := (lsRecompute P q s).tick + 2 } h1.1 hs2 hd1
+  unfold lsPass
+  simp only []
+  split_ifs <;> simp only [Pass.st] <;> first
+    | exact DirReach.reset hd1
+    | exact hd1
+    | exact hu
+
+theorem lineSearch_reach {n m : Nat} {P : Problem α} (hP : ProblemSized n m P) (dir : Direction D α)
+    (d0 : D) (pr : Params α) (stop : Nat → Bool) (q : Vec α) (tauInit : α)
+    (hq : tauInit ≠ 0 → q.length = n) (fuel : Nat) (s : LS α D) (h : LSSized n m q tauInit s)
+    (hd : DirReach n dir d0 s.d) :
+    DirReach n dir d0 (lineSearch P dir pr stop q tauInit fuel s).d := by
+  induction fuel generalizing s with
+  | zero => simpa [lineSearch] using hd
+  | succ f ih =>
+    unfold lineSearch
+    by_cases hst : stop s.tick
+    · simp only [hst, if_true]; exact hd
+    · simp only [hst, Bool.false_eq_true, if_false]
+      have hp := lsPass_sized hP dir pr q tauInit hq s h
+      have hr := lsPass_reach hP dir d0 pr q tauInit hq s h hd
+      cases hpass : lsPass P dir pr q tauInit s with
+      | done s' => rw [hpass] at hr; exact hr
+      | again s' =>
+        rw [hpass] at hp hr
+        exact ih s' hp hr
 
 theorem updateStage_sized {n m : Nat} {P : Problem α} (hP : ProblemSized n m P) (dir : Direction D α)
     (pr : Params α) (ls : LS α D) (h : Sized n m ls.curr) :
@@ -235,6 +372,21 @@ theorem updateStage_sized {n m : Nat} {P : Problem α} (hP : ProblemSized n m P)
   · rw [hu]
     unfold evalProxGradStep
     exact ⟨h.x, h.g, hP.prox_xhat _ _ _ h.x h.g, hP.prox_p _ _ _ h.x h.g, h.yhat, h.gh⟩
+
+/-- The update stage (`changed_γ`, `update`) calls the provider on reachable states with `n`-sized
+    vectors. -/
+theorem updateStage_reach {n m : Nat} {P : Problem α} (hP : ProblemSized n m P) (dir : Direction D α)
+    (d0 : D) (pr : Params α) (ls : LS α D) (hc : Sized n m ls.curr) (hn : Sized n m ls.next)
+    (hd : DirReach n dir d0 ls.d) : DirReach n dir d0 (updateStage P dir pr ls).2.1 := by
+  unfold updateStage
+  split_ifs with h1 h2 h3
+  · refine DirReach.update _ _ _ _ _ _ _ _ (DirReach.changedGamma _ _ hd) ?_ hn.x ?_ hn.p ?_ hn.g
+    · exact hc.x
+    · unfold evalProxGradStep; exact hP.prox_p _ _ _ hc.x hc.g
+    · exact hc.g
+  · exact DirReach.update _ _ _ _ _ _ _ _ (DirReach.changedGamma _ _ hd) hc.x hn.x hc.p hn.p hc.g hn.g
+  · exact DirReach.update _ _ _ _ _ _ _ _ hd hc.x hn.x hc.p hn.p hc.g hn.g
+  · exact hd
 
 theorem iterLs_init_sized {n m : Nat} (dir : Direction D α) (pr : Params α) (s : St α D)
     (h : Sized n m s.curr) :
@@ -252,12 +404,13 @@ theorem iterLs_init_sized {n m : Nat} (dir : Direction D α) (pr : Params α) (s
 /-- What one pass of the loop body leaves as the current iterate is sized — unless the model's
     line-search fuel ran out. -/
 theorem iterBody_sized {n m : Nat} {P : Problem α} (hP : ProblemSized n m P) (dir : Direction D α)
-    (hD : DirSized n dir) (pr : Params α) (stop : Nat → Bool) (s : St α D) (eps : α)
-    (h : Sized n m s.curr) (hf : (iterLs P dir pr stop s).fuelOut = false) :
+    (d0 : D) (hD : DirSized n dir d0) (pr : Params α) (stop : Nat → Bool) (s : St α D) (eps : α)
+    (h : Sized n m s.curr) (hd : DirOK n dir d0 s.k s.d)
+    (hf : (iterLs P dir pr stop s).fuelOut = false) :
     Sized n m (iterBody P dir pr stop s eps).curr ∧
     (stop (iterLs P dir pr stop s).tick = false → Sized n m (iterLs P dir pr stop s).next) := by
   have hls := lineSearch_sized hP dir pr stop (directionStage dir s).2.2.1
-    (directionStage dir s).2.2.2.1 (directionStage_q dir hD s h) pr.lsFuel _
+    (directionStage dir s).2.2.2.1 (directionStage_q dir d0 hD s h hd) pr.lsFuel _
     (iterLs_init_sized dir pr s h) rfl
   have hls' : Sized n m (iterLs P dir pr stop s).curr ∧
       ((iterLs P dir pr stop s).fuelOut = false → stop (iterLs P dir pr stop s).tick = false →
@@ -269,6 +422,39 @@ theorem iterBody_sized {n m : Nat} {P : Problem α} (hP : ProblemSized n m P) (d
     rw [(iterBody_advanced P dir pr stop s eps hst').2.2.1]
     exact hls'.2 hf hst'
 
+/-- … and the provider state it leaves is reachable: every provider call of the pass was made on a
+    reachable state with `n`-sized vectors. -/
+theorem iterBody_reach {n m : Nat} {P : Problem α} (hP : ProblemSized n m P) (dir : Direction D α)
+    (d0 : D) (hD : DirSized n dir d0) (pr : Params α) (stop : Nat → Bool) (s : St α D) (eps : α)
+    (h : Sized n m s.curr) (hd : DirOK n dir d0 s.k s.d)
+    (hf : (iterLs P dir pr stop s).fuelOut = false) :
+    DirReach n dir d0 (iterBody P dir pr stop s eps).d := by
+  have hq := directionStage_q dir d0 hD s h hd
+  have hinit := iterLs_init_sized dir pr s h
+  have hls := lineSearch_sized hP dir pr stop (directionStage dir s).2.2.1
+    (directionStage dir s).2.2.2.1 hq pr.lsFuel _ hinit rfl
+  have hr := lineSearch_reach hP dir d0 pr stop (directionStage dir s).2.2.1
+    (directionStage dir s).2.2.2.1 hq pr.lsFuel _ hinit (directionStage_reach dir d0 s h hd)
+  have hls' : Sized n m (iterLs P dir pr stop s).curr ∧
+      ((iterLs P dir pr stop s).fuelOut = false → stop (iterLs P dir pr stop s).tick = false →
+        Sized n m (iterLs P dir pr stop s).next) := hls
+  have hr' : DirReach n dir d0 (iterLs P dir pr stop s).d := hr
+  by_cases hst : stop (iterLs P dir pr stop s).tick = true
+  · have e : (iterBody P dir pr stop s eps).d = (iterLs P dir pr stop s).d := by
+      unfold iterLs at hst
+      unfold iterBody iterLs
+      simp only []
+      rw [if_pos hst]
+    rw [e]; exact hr'
+  · have hst' : stop (iterLs P dir pr stop s).tick = false := by simpa using hst
+    have e : (iterBody P dir pr stop s eps).d = (updateStage P dir pr (iterLs P dir pr stop s)).2.1 := by
+      unfold iterLs at hst'
+      unfold iterBody iterLs
+      simp only []
+      rw [if_neg (by rw [hst']; decide)]
+    rw [e]
+    exact updateStage_reach hP dir d0 pr _ hls'.1 (hls'.2 hf hst') hr'
+
 theorem headStep_sized {n m : Nat} {P : Problem α} (hP : ProblemSized n m P) (pr : Params α)
     (stop : Nat → Bool) (oot : Bool) (s : St α D) (h : Sized n m s.curr) :
     Sized n m (headStep P pr stop oot s).1.curr := by
@@ -277,6 +463,10 @@ theorem headStep_sized {n m : Nat} {P : Problem α} (hP : ProblemSized n m P) (p
   split_ifs
   · exact sized_evalGradPsiHat hP _ h
   · exact h
+
+theorem headStep_d (P : Problem α) (pr : Params α) (stop : Nat → Bool) (oot : Bool) (s : St α D) :
+    (headStep P pr stop oot s).1.d = s.d ∧ (headStep P pr stop oot s).1.k = s.k := by
+  unfold headStep; simp only []; exact ⟨trivial, trivial⟩
 
 theorem initQub_sized {n m : Nat} {P : Problem α} (hP : ProblemSized n m P) (pr : Params α)
     (stop : Nat → Bool) (f : Nat) (c : Iterate α) (t b : Nat) (h : Sized n m c) :
@@ -306,6 +496,15 @@ theorem initState_sized {n m : Nat} {P : Problem α} (hP : ProblemSized n m P) (
   · apply initQub_sized hP
     apply sized_evalStep hP
     exact ⟨hx0, by unfold evalPsiGradPsi; simp only []; exact hP.pgp_grad _ hx0⟩
+
+theorem initState_d (P : Problem α) (d0 : D) (pr : Params α) (stop : Nat → Bool) (x0 gV : Vec α)
+    (gS iS : α) :
+    match initState P d0 pr stop x0 gV gS iS with
+    | .inl _ => True
+    | .inr s => s.k = 0 ∧ s.d = d0 := by
+  unfold initState
+  simp only []
+  split_ifs <;> first | trivial | exact ⟨rfl, rfl⟩
 
 /-! ### Exit block and the whole solve -/
 
@@ -337,10 +536,10 @@ theorem exitBlock_sized {n m : Nat} {P : Problem α} (hP : ProblemSized n m P) (
     · exact he
 
 theorem mainLoop_sized {n m : Nat} {P : Problem α} (hP : ProblemSized n m P) (dir : Direction D α)
-    (hD : DirSized n dir) (pr : Params α) (stop : Nat → Bool) (oot : Bool)
+    (d0 : D) (hD : DirSized n dir d0) (pr : Params α) (stop : Nat → Bool) (oot : Bool)
     (x0 y Sig errz0 : Vec α) (hx0 : x0.length = n) (hy : y.length = m) (hS : Sig.length = m)
     (he : errz0.length = m) (fuel : Nat) (s : St α D) (h : Sized n m s.curr)
-    (hf : s.fuelOut = false)
+    (hd : DirOK n dir d0 s.k s.d) (hf : s.fuelOut = false)
     (hr : (mainLoop P dir pr stop oot x0 y Sig errz0 fuel s).fuelOut = false) :
     OutSized n m (mainLoop P dir pr stop oot x0 y Sig errz0 fuel s) := by
   induction fuel generalizing s with
@@ -362,28 +561,32 @@ theorem mainLoop_sized {n m : Nat} {P : Problem α} (hP : ProblemSized n m P) (d
         · exact hc
       have hls : (iterLs P dir pr stop (headStep P pr stop oot s).1).fuelOut = false := by
         rw [iterBody_fuelOut, hfh] at hf2; simpa using hf2
-      exact ih _ (iterBody_sized hP dir hD pr stop _ _ hh hls).1 hf2 hr
+      have hdh : DirOK n dir d0 (headStep P pr stop oot s).1.k (headStep P pr stop oot s).1.d := by
+        rw [(headStep_d P pr stop oot s).1, (headStep_d P pr stop oot s).2]; exact hd
+      exact ih _ (iterBody_sized hP dir d0 hD pr stop _ _ hh hdh hls).1
+        (Or.inr (iterBody_reach hP dir d0 hD pr stop _ _ hh hdh hls)) hf2 hr
 
 /-- **Sizes are preserved by a solve on a well-formed call**: `x`, `y`, `err_z` come back with sizes
     `n`, `m`, `m` whatever the exit path (written or untouched). -/
 theorem run_sized {n m : Nat} {P : Problem α} (hP : ProblemSized n m P) (dir : Direction D α)
-    (hD : DirSized n dir) (d0 : D) (pr : Params α) (stop : Nat → Bool) (oot : Bool)
+    (d0 : D) (hD : DirSized n dir d0) (pr : Params α) (stop : Nat → Bool) (oot : Bool)
     (x0 y Sig errz0 gV : Vec α) (gS iS : α) (hx0 : x0.length = n) (hy : y.length = m)
     (hS : Sig.length = m) (he : errz0.length = m)
     (hfuel : (run P dir d0 pr stop oot x0 y Sig errz0 gV gS iS).fuelOut = false) :
     OutSized n m (run P dir d0 pr stop oot x0 y Sig errz0 gV gS iS) := by
   have hi := initState_sized hP d0 pr stop x0 gV gS iS hx0
+  have hid := initState_d P d0 pr stop x0 gV gS iS
   unfold run at hfuel ⊢
   cases hs : initState P d0 pr stop x0 gV gS iS with
   | inl t => exact ⟨hx0, hy, he⟩
   | inr s =>
-    rw [hs] at hi
+    rw [hs] at hi hid
     simp only [hs] at hfuel ⊢
     have hf0 : s.fuelOut = false := by
       rcases Bool.eq_false_or_eq_true s.fuelOut with hc | hc
       · have := mainLoop_fuelOut_mono P dir pr stop oot x0 y Sig errz0 (pr.maxIter + 2) s hc
         rw [this] at hfuel; exact absurd hfuel (by decide)
       · exact hc
-    exact mainLoop_sized hP dir hD pr stop oot x0 y Sig errz0 hx0 hy hS he _ s hi hf0 hfuel
+    exact mainLoop_sized hP dir d0 hD pr stop oot x0 y Sig errz0 hx0 hy hS he _ s hi (Or.inl hid) hf0 hfuel
 
 end Alpaqa.Panoc
